@@ -1,6 +1,7 @@
 (* C19: the abstract specification level of the bounded mpsc channel - the protocol of
    wrappers/tokio/impls/tokio/inner/src/sync/mpsc.rs over two permit counters and a FIFO buffer, with one phase per
-   client for every position between two scheduling points of send / try_send / recv / try_recv / blocking_recv.
+   client for every position between two scheduling points of send / try_send / recv / try_recv / blocking_recv
+   (the code as of /repo 7bf2a6b: every receive method gives its slot back).
    A block of the model that does two things at once (a release that hands the permit to the queued head, an acquire
    that pushes in the same block) appears here either as one step or as two consecutive ones, so the abstract runs are
    a superset of the model's.  Definitions only; proofs in Proofs/TokProto.v. *)
@@ -14,7 +15,7 @@ Inductive cph :=
 | CSendPushed                  (* message pushed; recv_semaphore.release(1) comes after the scheduling point *)
 | CRecvWait (blocking : bool)  (* recv_semaphore.acquire(1) queued *)
 | CRecvGranted (blocking : bool)
-| CRecvPopped.                 (* message taken by recv / try_recv; send_semaphore.release(1) comes after the scheduling point *)
+| CRecvPopped.                 (* message taken by recv / try_recv / blocking_recv; send_semaphore.release(1) comes after the scheduling point *)
 
 Record amp := mkAmp {
   a_k : nat;              (* Channel.bound *)
@@ -25,7 +26,6 @@ Record amp := mkAmp {
   a_cl : list cph;        (* the clients *)
   a_sent : list nat;      (* ghost: values pushed, in order *)
   a_rcvd : list nat;      (* ghost: values taken, in order *)
-  a_leaked : nat;         (* ghost: values taken by blocking_recv *)
   a_lost : nat;           (* ghost: capacity permits of senders that found the channel closed after being granted *)
 }.
 
@@ -51,19 +51,20 @@ Fixpoint set_nth {A} (l : list A) (i : nat) (x : A) : list A :=
   end.
 
 Definition with_cl (a : amp) (i : nat) (c : cph) : amp :=
-  mkAmp (a_k a) (a_q a) (a_free a) (a_msgs a) (a_closed a) (set_nth (a_cl a) i c) (a_sent a) (a_rcvd a) (a_leaked a) (a_lost a).
+  mkAmp (a_k a) (a_q a) (a_free a) (a_msgs a) (a_closed a) (set_nth (a_cl a) i c) (a_sent a) (a_rcvd a) (a_lost a).
 
 (* push v, by client i which moves to CSendPushed *)
 Definition do_push (a : amp) (i : nat) (v : nat) (free' : nat) : amp :=
-  mkAmp (a_k a) (a_q a ++ [v]) free' (a_msgs a) (a_closed a) (set_nth (a_cl a) i CSendPushed) (a_sent a ++ [v]) (a_rcvd a) (a_leaked a) (a_lost a).
+  mkAmp (a_k a) (a_q a ++ [v]) free' (a_msgs a) (a_closed a) (set_nth (a_cl a) i CSendPushed) (a_sent a ++ [v]) (a_rcvd a) (a_lost a).
 
-(* pop by client i; None = the buffer is empty although a message permit was held (the `expect` of try_recv) *)
-Definition do_pop (a : amp) (i : nat) (b : bool) (msgs' : nat) : option amp :=
+(* pop by client i, for recv / try_recv / blocking_recv alike (since /repo 7bf2a6b blocking_recv gives the slot back too);
+   None = the buffer is empty although a message permit was held (the `expect` of try_recv) *)
+Definition do_pop (a : amp) (i : nat) (msgs' : nat) : option amp :=
   match a_q a with
   | [] => None
   | v :: q' =>
-    Some (mkAmp (a_k a) q' (a_free a) msgs' (a_closed a) (set_nth (a_cl a) i (if b then CIdle else CRecvPopped))
-                (a_sent a) (a_rcvd a ++ [v]) (if b then S (a_leaked a) else a_leaked a) (a_lost a))
+    Some (mkAmp (a_k a) q' (a_free a) msgs' (a_closed a) (set_nth (a_cl a) i CRecvPopped)
+                (a_sent a) (a_rcvd a ++ [v]) (a_lost a))
   end.
 
 (* None = the step is not enabled (wrong phase / no permit) or the model would panic *)
@@ -80,27 +81,27 @@ Definition astep (a : amp) (i : nat) (l : alabel) : option amp :=
       if a_closed a then None else
       match a_free a with
       | O => None
-      | S f => Some (mkAmp (a_k a) (a_q a) f (a_msgs a) (a_closed a) (set_nth (a_cl a) i (CSendGranted v)) (a_sent a) (a_rcvd a) (a_leaked a) (a_lost a))
+      | S f => Some (mkAmp (a_k a) (a_q a) f (a_msgs a) (a_closed a) (set_nth (a_cl a) i (CSendGranted v)) (a_sent a) (a_rcvd a) (a_lost a))
       end
     | LSendObserve, CSendGranted v =>
       if a_closed a then
-        Some (mkAmp (a_k a) (a_q a) (a_free a) (a_msgs a) (a_closed a) (set_nth (a_cl a) i CIdle) (a_sent a) (a_rcvd a) (a_leaked a) (S (a_lost a)))
+        Some (mkAmp (a_k a) (a_q a) (a_free a) (a_msgs a) (a_closed a) (set_nth (a_cl a) i CIdle) (a_sent a) (a_rcvd a) (S (a_lost a)))
       else Some (do_push a i v (a_free a))
     | LSendFail, CSendWait _ => if a_closed a then Some (with_cl a i CIdle) else None
     | LSendRelease, CSendPushed =>
-      Some (mkAmp (a_k a) (a_q a) (a_free a) (S (a_msgs a)) (a_closed a) (set_nth (a_cl a) i CIdle) (a_sent a) (a_rcvd a) (a_leaked a) (a_lost a))
+      Some (mkAmp (a_k a) (a_q a) (a_free a) (S (a_msgs a)) (a_closed a) (set_nth (a_cl a) i CIdle) (a_sent a) (a_rcvd a) (a_lost a))
     | LRecvStart b, CIdle => Some (with_cl a i (CRecvWait b))
-    | LRecvNow b, CIdle => match a_msgs a with O => None | S m => do_pop a i b m end
+    | LRecvNow b, CIdle => match a_msgs a with O => None | S m => do_pop a i m end
     | LRecvGrant, CRecvWait b =>
       match a_msgs a with
       | O => None
-      | S m => Some (mkAmp (a_k a) (a_q a) (a_free a) m (a_closed a) (set_nth (a_cl a) i (CRecvGranted b)) (a_sent a) (a_rcvd a) (a_leaked a) (a_lost a))
+      | S m => Some (mkAmp (a_k a) (a_q a) (a_free a) m (a_closed a) (set_nth (a_cl a) i (CRecvGranted b)) (a_sent a) (a_rcvd a) (a_lost a))
       end
-    | LRecvObserve, CRecvGranted b => do_pop a i b (a_msgs a)
+    | LRecvObserve, CRecvGranted b => do_pop a i (a_msgs a)
     | LRecvGiveBack, CRecvPopped =>
-      Some (mkAmp (a_k a) (a_q a) (S (a_free a)) (a_msgs a) (a_closed a) (set_nth (a_cl a) i CIdle) (a_sent a) (a_rcvd a) (a_leaked a) (a_lost a))
+      Some (mkAmp (a_k a) (a_q a) (S (a_free a)) (a_msgs a) (a_closed a) (set_nth (a_cl a) i CIdle) (a_sent a) (a_rcvd a) (a_lost a))
     | LClose, _ =>
-      Some (mkAmp (a_k a) (a_q a) (a_free a) (a_msgs a) true (a_cl a) (a_sent a) (a_rcvd a) (a_leaked a) (a_lost a))
+      Some (mkAmp (a_k a) (a_q a) (a_free a) (a_msgs a) true (a_cl a) (a_sent a) (a_rcvd a) (a_lost a))
     | _, _ => None
     end
   end.
@@ -111,7 +112,7 @@ Fixpoint arun (a : amp) (steps : list (nat * alabel)) : option amp :=
   | (i, l) :: r => match astep a i l with Some a' => arun a' r | None => None end
   end.
 
-Definition amp_init (k nclients : nat) : amp := mkAmp k [] k 0 false (repeat CIdle nclients) [] [] 0 0.
+Definition amp_init (k nclients : nat) : amp := mkAmp k [] k 0 false (repeat CIdle nclients) [] [] 0.
 
 Definition cnt (p : cph -> bool) (l : list cph) : nat := length (filter p l).
 Definition is_sgranted (c : cph) : bool := match c with CSendGranted _ => true | _ => false end.
@@ -122,6 +123,6 @@ Definition is_idle (c : cph) : bool := match c with CIdle => true | _ => false e
 
 (* capacity accounting, message accounting, FIFO *)
 Definition amp_inv (a : amp) : Prop :=
-  a_free a + cnt is_sgranted (a_cl a) + length (a_q a) + cnt is_popped (a_cl a) + a_leaked a + a_lost a = a_k a /\
+  a_free a + cnt is_sgranted (a_cl a) + length (a_q a) + cnt is_popped (a_cl a) + a_lost a = a_k a /\
   a_msgs a + cnt is_rgranted (a_cl a) + cnt is_pushed (a_cl a) = length (a_q a) /\
   a_sent a = a_rcvd a ++ a_q a.
